@@ -66,14 +66,15 @@ reg("C11", ["E1"], E1T,
     "accept <=> Schnorr / pairing relation is an SMT validity query per path; every single-atom, challenge and parameter perturbation is refuted under stated non-degeneracy; "
     "the prover-built all-identity signature proof is shown rejected on every feasible path.",
     TB, "DESIGN.md section 4, C11")
-reg("C12", ["E1"], E1T,
+reg("C12", ["E1", "E2"], E1T + "; plus " + E2T,
     "Bounded model checking: the challenge transcripts computed by the real ChallengeInput impls and inside initialize / allow_payment are recorded by the ideal-hash stand-in; "
-    "for every wire atom of every proof type, key, parameter set and statement component the query 'equal digest and different atom' must be unsat (response scalars: documented sat twin); builder and proof transcripts must be identical.",
+    "for every wire atom of every proof type, key, parameter set and statement component the query 'equal digest and different atom' must be unsat (response scalars: documented sat twin); builder and proof transcripts must be identical. "
+    "Kani part: for EVERY 32-byte channel id, ChannelId::to_scalar is from_raw of its four little-endian words and changes with every single byte (hook channel_id_to_scalar).",
     TB, "DESIGN.md section 4, C12")
 reg("C13", ["E1", "E2"], E1T + "; thorough tier adds " + E2T,
     "Bounded model checking of RangeConstraint::verify_range_constraint on a fully symbolic constraint (accept-set against 9 digit-proof relations + link equation, d failing checks), "
     "the verifier's own link weights extracted from its path condition and fed to an integer query (digits in [0,128) => value in [0,2^63), maximum exactly 2^63-1), mismatch of link/challenge/key refuted, "
-    "RangeConstraintParameters::validate exact for single failing signatures; prover sign test on lattice values; thorough tier: Kani proves for ALL i64 that generate_constraint_commitments errs exactly on negatives and never panics (hook-built parameters, canonical-integer Scalar; ~5-15 min).",
+    "RangeConstraintParameters::validate exact for single failing signatures; prover sign test on lattice values; thorough tier: Kani proves for ALL i64 that generate_constraint_commitments errs exactly on negatives, never panics, and decomposes every accepted value into nine digits < 128 with sum d_j 128^j = value (hook-built parameters, digit-recording hook, canonical-integer Scalar; ~5-15 min).",
     TB + "; digit signatures exist only for 0..127 (signing key discarded) is an assumption", "DESIGN.md section 4, C13")
 reg("C18", ["E1"], E1T,
     "Bounded model checking: Nonce::new over arbitrary draws incl. the crafted close-tag stream (retry paths), Nonce decode exact, the state's nonce slot != close tag, "
@@ -162,3 +163,6 @@ def evidence(pid, tier, seed, spec, parts, findings, violations, known_hits, inc
         "wall_s": round(wall, 2),
         "violations": len(violations),
     }
+
+# commits in /repo that add the feature-guarded hooks (cargo feature `verif-hooks`, off by default)
+HOOK_COMMITS = ["21124ac", "8c946cd", "e45b145", "f1faf4a"]
